@@ -363,7 +363,60 @@ def check_shapes(prop, tier):
     return 1 if fresh > 0 else 0
 
 
+def check_terms(prop, tier):
+    """C08: the specification's term trees (MC_Terms) interpreted by the term evaluator,
+    pinned to the official vectors, compared with the library over the C01/C02 input space."""
+    t0 = time.time()
+    res = verif.run_tlc("MC_Terms.tla", "MC_Terms.cfg", workers=1, timeout=600)
+    verif.require_model_ok(res, "MC_Terms")
+    terms = verif.printed_records(res["out"], "TERMS")
+    if not terms:
+        raise ToolError("MC_Terms printed no terms")
+    tp = os.path.join(verif.WORK, "terms_%s.json" % tier)
+    json.dump(terms[0], open(tp, "w"))
+    out = os.path.join(verif.WORK, "c08_%s.json" % tier)
+    import subprocess
+    p = subprocess.run([verif.PV, "eval-terms", "--terms", tp, "--vectors", os.path.join(verif.ROOT, "fixtures", "vectors.json"),
+                        "--tier", tier, "--seed", str(verif.seed()), "--out", out], stdout=subprocess.PIPE, stderr=subprocess.PIPE, text=True, timeout=7200)
+    if p.returncode == 3:
+        raise ToolError("the term evaluator is not pinned to the official vectors (oracle defect, not a violation): " + p.stderr[-1500:])
+    if p.returncode not in (0, 1):
+        raise ToolError("pv eval-terms failed: " + p.stderr[-1500:])
+    s = _summary(out)
+    # the footer-segment iff part is shared with the minted-token checks of C05
+    out2 = os.path.join(verif.WORK, "minted_C08_%s.json" % tier)
+    verif.run_pv(["minted-checks", "--prop", "C05", "--tier", tier, "--seed", str(verif.seed()), "--out", out2])
+    s2 = _summary(out2)
+    viol = s["violations"] + [dict(v, props=["C08"]) for v in s2["violations"]]
+    fresh = verif.report(prop, viol, tier)
+    coverage = {
+        "states": max(1, res["distinct"]),
+        "transitions": max(1, res["states"]),
+        "traces_validated_against_impl": s["distinct"],
+        "samples": s["samples"] or [terms[0][0]["pr"]],
+        "evaluations": s["evaluations"] + s2["evaluations"],
+        "distinct_nontrivial": s["distinct"],
+        "rule": "MC_Terms prints the term tree of the prescribed token for all 8 protocols (+ raw-wire-nonce variants of v1/v2, PAE expanded "
+                "to LE64/concat); the evaluator, pinned to %d official vectors at the start of the run, builds the specification's token for "
+                "every message length 0..=300 (thorough 600), block boundaries, 64 KiB, footers/assertions incl. lengths with bit 7 set, "
+                "empty and non-ASCII, random keys and nonce seeds: local = byte-identical + library decrypts specification tokens; public = "
+                "cross-verification both ways (+ s-negated ECDSA); one evaluation = one comparison / cross-verification; distinct = distinct "
+                "(protocol, key, nonce, message, footer, assertion) inputs; plus %d produced tokens whose footer segment is checked"
+                % (s["pinned_vectors"], s2["evaluations"]),
+        "pinned_vectors": s["pinned_vectors"],
+        "tlc_invariants": "Inv_Binds (every protocol's terms mention exactly the inputs it binds)",
+        "exhaustive": False,
+    }
+    verif.write_evidence(prop, tier, coverage,
+                         ["the evaluator shares primitive crates (hmac, sha2, hkdf, blake2, chacha20, aes, ed25519-dalek, p384, ring) with the library but no protocol code",
+                          "official vectors (fixtures/vectors.json, extracted from the PASETO test-vector files shipped in the repository's tests): v1-v4 local 9 each, v2-v4 public 3 each; v1.public has no deterministic vector",
+                          "TLA+ fixes the structure of the algorithm; primitive semantics come from the interpreter"],
+                         time.time() - t0, s["nviol"] + len(s2["violations"]))
+    return 1 if fresh > 0 else 0
+
+
 REGISTRY = {}
+REGISTRY["C08"] = check_terms
 REGISTRY["C09"] = check_shapes
 for _p in ("C11", "C12", "C15", "C16"):
     REGISTRY[_p] = check_parser_family
